@@ -9,6 +9,7 @@ import (
 	"math/rand"
 	"net/http"
 	"net/textproto"
+	"path"
 	"runtime/debug"
 	"sort"
 	"strings"
@@ -486,12 +487,15 @@ var fileSeq atomic.Int64
 // WriteMem writes data to a fresh file on the shared in-memory fs and returns its path.
 func WriteMem(data []byte) string {
 	p := fmt.Sprintf("/verif/ammo-%d", fileSeq.Add(1))
-	_ = afero.WriteFile(Fs(), p, data, 0o644)
+	_ = WriteMemAt(p, data)
 	return p
 }
 
 // WriteMemAt writes data at the given path of the in-memory fs.
-func WriteMemAt(p string, data []byte) error { return afero.WriteFile(Fs(), p, data, 0o644) }
+func WriteMemAt(p string, data []byte) error {
+	_ = Fs().MkdirAll(path.Dir(p), 0o755)
+	return afero.WriteFile(Fs(), p, data, 0o644)
+}
 
 func RemoveMem(p string) { _ = Fs().Remove(p) }
 
